@@ -126,7 +126,7 @@ func validLeak(lc *LeakCase) error {
 		if c.Slot < 0 || c.Slot > slotMax || c.FailedBefore < 0 || c.FailedBefore > 2 || c.Status < 0 || c.Status > 4 {
 			return fmt.Errorf("bad placement")
 		}
-		if c.T.K != kStruct {
+		if c.T.K != kStruct && c.T.K != kRec {
 			return fmt.Errorf("request type must be a struct")
 		}
 		leaves := 0
@@ -222,6 +222,23 @@ func checkLeak(lc *LeakCase, res *vprop.Result) {
 	}
 	for e := range edgeSet {
 		res.Label("edge:" + e)
+	}
+	// recursive static types (rec_test.go)
+	for i := range lc.Carriers {
+		if lc.Carriers[i].T.K == kRec {
+			res.Label("rec:as-request/response-type")
+		}
+		for _, r := range recRoots(&lc.Carriers[i].T, nil) {
+			res.Label("rec:present")
+			res.Label("rec:root:" + recTypeNames[r.Type])
+		}
+	}
+	for _, c := range orig.canaries {
+		if i := strings.Index(c.Path, kRec); c.Secret && i >= 0 && strings.Contains(c.Path[i:], kStruct) {
+			// a secure-tagged field of a family struct that is reached through another family struct
+			res.Label("rec:secure-canary-in-nested-struct-of-recursive-type")
+			break
+		}
 	}
 	nSecret, nOpen := 0, 0
 	securePaths := map[string]bool{}
@@ -364,6 +381,21 @@ func checkLeak(lc *LeakCase, res *vprop.Result) {
 		return
 	}
 	judgeRender(f, res, lc)
+}
+
+// recRoots lists the recursive-type values inside a shape.
+func recRoots(s *Shape, out []*RecRoot) []*RecRoot {
+	switch s.K {
+	case kRec:
+		out = append(out, s.R)
+	case kStruct:
+		for i := range s.F {
+			out = recRoots(&s.F[i].T, out)
+		}
+	case kPtr, kSlice, kMap, kIface:
+		out = recRoots(s.E, out)
+	}
+	return out
 }
 
 func describe(c Canary, orig *builtPlan) string {
